@@ -197,7 +197,7 @@ def check(sc):
 
 def search(seed, budget):
     rnd = random.Random(seed)
-    n = 300 if budget == "quick" else 5000
+    n = 2500 if budget == "quick" else 20000
     seen = set()
     for i in range(n):
         sc = gen_scenario(rnd)
